@@ -212,6 +212,7 @@ __CPROVER_ensures(g_exc == 0 || g_exc == EXC_CborOutputException || g_exc == EXC
 __CPROVER_ensures((g_exc == EXC_runtime_error) == ($1->m_block_parameters.n == 0))
 __CPROVER_ensures(g_exc == 0 ==> (''' + _ret(INV2) + '''))
 __CPROVER_ensures(g_exc == 0 ==> ($ret.m_blocks_written == 0 && $ret.m_active_block_parameters == 0 && $ret.m_file_preamble.m_block_parameters.n == $1->m_block_parameters.n))
+__CPROVER_ensures(g_exc == 0 ==> ($ret.m_block.m_block_preamble.block_parameters_index.has && $ret.m_block.m_block_preamble.block_parameters_index.val == 0))
 __CPROVER_ensures((g_exc == 0 && $1->m_block_parameters.wi == 0) ==> ''' + _ret(REARMED).replace('$ret.m_file_preamble.m_block_parameters.wv', '$1->m_block_parameters.wv') + ''')
 '''
 for tag, mn, argt in (('fd', '_ZN4CDNS12CdnsExporterC1IiEERNS_12FilePreambleERKT_NS_21CborOutputCompressionE', 'int'),
